@@ -32,6 +32,9 @@ def build_tree(rng, root):
         if p not in used:
             used.add(p)
             nodes.append({"path": p, "kind": "file", "content": gen_content(rng)})
+    for k, size in enumerate(rng.sample([32768, 32769, 40000, 65536, 70001, 100000], 2)):
+        body = (b"ab\n" * (size // 3 + 1))[:size]
+        nodes.append({"path": "big%d.dat" % k, "kind": "file", "content": body})
     base = 1_600_000_000
     for n in nodes:
         if n["kind"] != "symlink":
